@@ -56,8 +56,8 @@ def main():
     scenarios = witnesses()
     grid = P.policy_grid()
     scenarios += grid
-    scenarios += boundary(rng, 500 if quick else 6000)
-    for _ in range(1200 if quick else 15000):
+    scenarios += boundary(rng, 500 if quick else 3000)
+    for _ in range(1200 if quick else 7000):
         cfg = P.gen_cfg(rng)
         ops = [P.gen_op(rng) for _ in range(rng.choice([1, 1, 1, 2, 3]))]
         scenarios.append({"cfg": cfg, "ops": ops})
